@@ -524,7 +524,8 @@ func cmdCheck(args []string) int {
 	ev := map[string]interface{}{
 		"property_id": id, "tier": *tier, "seed": seed, "level": "proof",
 		"coverage": map[string]interface{}{
-			"obligations": nObl - nKnown, "discharged": nDis,
+			"obligations": nObl - nKnown - nUndecided, "discharged": nDis,
+			"query_digest":              fmt.Sprintf("%016x", queryDigest),
 			"known_finding_obligations": nKnown, "violating_obligations": nViol, "undecided_obligations": nUndecided,
 			"checker_cmd":              fmt.Sprintf("/verif/bin/gocv check %s --tier %s (weakest-precondition VCs over go/ssa of /repo, discharged by z3/z3-new/cvc5)", id, *tier),
 			"trusted_base":             tb,
@@ -559,8 +560,15 @@ func cmdCheck(args []string) int {
 		bd, _ := json.MarshalIndent(base, "", " ")
 		os.WriteFile(filepath.Join(root, "baseline_obligations.json"), bd, 0o644)
 	}
-	fmt.Printf("property=%s tier=%s functions=%d obligations=%d discharged=%d known=%d violations=%d undecided=%d wall=%.1fs\n",
-		id, *tier, len(funcs), nObl, nDis, nKnown, nViol, nUndecided, time.Since(t0).Seconds())
+	if f := os.Getenv("GOCV_DUMP_DIGESTS"); f != "" {
+		var sb strings.Builder
+		for _, k := range sortedKeys(queryNames) {
+			fmt.Fprintf(&sb, "%016x %s\n", queryNames[k], k)
+		}
+		os.WriteFile(f, []byte(sb.String()), 0o644)
+	}
+	fmt.Printf("property=%s tier=%s functions=%d obligations=%d discharged=%d known=%d violations=%d undecided=%d queries=%016x wall=%.1fs\n",
+		id, *tier, len(funcs), nObl, nDis, nKnown, nViol, nUndecided, queryDigest, time.Since(t0).Seconds())
 	return exit
 }
 
